@@ -17,7 +17,7 @@ MOD = "vf.props.C05"
 
 SHAPES = [(1, 1), (2, 1), (2, 2), (3, 2), (5, 2), (3, 3), (4, 3), (6, 4), (1, 2), (2, 3)]
 PATTERNS = ["none", "inactive", "act_lo", "act_hi", "at_min"]
-X0S = ["interior", "corner", "infeasible"]
+X0S = ["interior", "corner", "infeasible", "upper_some", "upper_corner"]
 
 
 def cases(tier, salts):
@@ -40,7 +40,9 @@ def cases(tier, salts):
                 for idx in idxs:
                     for pat in pats:
                         for x0k in X0S:
-                            if tier == "quick" and n >= 3 and x0k == "corner" and cond != 1.0:
+                            if tier == "quick" and n >= 3 and x0k in ("corner", "upper_corner") and cond != 1.0:
+                                continue
+                            if x0k in ("upper_some", "upper_corner") and all(PATTERNS[p] == "none" for p in pat):
                                 continue
                             for sc in (False, True):
                                 if sc and any(PATTERNS[p] == "none" for p in pat):
@@ -85,6 +87,11 @@ def build(case):
             x0[j] = 0.5 * (lo[j] + hi[j]) if fin else xhat[j] + 0.4
         elif case["x0"] == "corner":
             x0[j] = lo[j] if fin else xhat[j] - 0.5
+        elif case["x0"] == "upper_some":      # on the upper bound in every second coordinate (starting with the last), interior elsewhere
+            on = ((n - 1 - j) % 2 == 0)
+            x0[j] = (hi[j] if on else 0.5 * (lo[j] + hi[j])) if fin else xhat[j] + 0.4
+        elif case["x0"] == "upper_corner":
+            x0[j] = hi[j] if fin else xhat[j] + 0.5
         else:
             x0[j] = lo[j] - 0.5 * mag[j] if fin else xhat[j] + 0.7
     return A, b, lo, hi, x0
